@@ -129,6 +129,10 @@ EXPORT errno_t _wcscmp_s_chk(const wchar_t *restrict dest, rsize_t dmax,
         smax--;
     }
 
-    *resultp = *dest - *src;
+    /* do not look at dest[dmax] or src[smax] */
+    if (dmax && smax)
+        *resultp = *dest - *src;
+    else
+        *resultp = dmax ? (*dest != 0) : 0;
     return RCNEGATE(EOK);
 }
